@@ -7,6 +7,7 @@ import (
 	"os"
 	"os/exec"
 	"path/filepath"
+	"sort"
 	"sync"
 	"time"
 
@@ -15,6 +16,7 @@ import (
 
 	"verif/internal/ev"
 	"verif/internal/gen"
+	"verif/internal/oracle"
 )
 
 func init() {
@@ -136,6 +138,7 @@ func runC16(c *ev.Ctx) {
 	}
 	passBoundarySweep(c, seed)
 	generalPassSweep(c, seed)
+	passNeedleSearch(c, seed)
 	if c.Lite() {
 		var keep []work
 		for i, w := range works {
@@ -299,6 +302,132 @@ func passBoundarySweep(c *ev.Ctx, seed uint64) {
 		c.Count(fmt.Sprintf("runner%02d_results_with_P_in_[0.009,0.011]", k+1), int64(near))
 		c.Note(fmt.Sprintf("runner%02d_closest_P_around_0.01", k+1), map[string]interface{}{"input_family": fmt.Sprintf("%s/%d", best.fam, best.a), "largest_below": below, "smallest_at_or_above": above})
 	})
+}
+
+// passNeedleSearch: for the two registry tests whose P-value depends on the input only through two
+// integers (monobit: n and the ones count; cumulative sums: n and the maximum excursion) the whole
+// parameter plane is scanned for the inputs whose P is closest to 0.01 on either side, and the Pass
+// flag is checked exactly there (a tolerance slipped into the comparison has nowhere else to show).
+func passNeedleSearch(c *ev.Ctx, seed uint64) {
+	top := 260000
+	if c.Thorough() {
+		top = 2000000
+	}
+	if c.Lite() {
+		top = 60000
+	}
+	type cand struct {
+		n, v int
+		p    float64
+	}
+	keepBest := func(list []cand, cd cand, k int) []cand {
+		list = append(list, cd)
+		sort.Slice(list, func(a, b int) bool { return math.Abs(list[a].p-0.01) < math.Abs(list[b].p-0.01) })
+		if len(list) > k {
+			list = list[:k]
+		}
+		return list
+	}
+	// cumulative sums (forward): P decreases with the excursion z
+	var mu sync.Mutex
+	var cuBelow, cuAbove, moBelow, moAbove []cand
+	nn := (top - 1000) / 8
+	parallel(16, func(w int) {
+		var lb, la, mb, ma []cand
+		for k := w; k < nn; k += 16 {
+			n := 1000 + 8*k
+			lo, hi := 1, n // smallest z with P < 0.01
+			for lo < hi {
+				mid := (lo + hi) / 2
+				if oracle.CumulativeP(n, mid) < 0.01 {
+					hi = mid
+				} else {
+					lo = mid + 1
+				}
+			}
+			lb = keepBest(lb, cand{n, lo, oracle.CumulativeP(n, lo)}, 12)
+			if lo > 1 {
+				la = keepBest(la, cand{n, lo - 1, oracle.CumulativeP(n, lo-1)}, 12)
+			}
+			// monobit: P = erfc(|S|/sqrt(2n)), S = 2*ones-n has the parity of n
+			s0 := int(2.5758293035489 * math.Sqrt(float64(n)))
+			for s := s0 - 3; s <= s0+3; s++ {
+				if s < 0 || (s+n)%2 != 0 {
+					continue
+				}
+				p := math.Erfc(float64(s) / math.Sqrt(2*float64(n)))
+				if p < 0.01 {
+					mb = keepBest(mb, cand{n, s, p}, 12)
+				} else {
+					ma = keepBest(ma, cand{n, s, p}, 12)
+				}
+			}
+		}
+		mu.Lock()
+		for _, x := range lb {
+			cuBelow = keepBest(cuBelow, x, 24)
+		}
+		for _, x := range la {
+			cuAbove = keepBest(cuAbove, x, 24)
+		}
+		for _, x := range mb {
+			moBelow = keepBest(moBelow, x, 24)
+		}
+		for _, x := range ma {
+			moAbove = keepBest(moAbove, x, 24)
+		}
+		mu.Unlock()
+	})
+	run := func(k int, what string, list []cand, build func(cd cand) []uint8) {
+		for _, cd := range list {
+			bits := build(cd)
+			data := gen.Pack(bits)
+			var r *R.TestResult
+			if p, m := guard(func() { r = R.TestMethodArr[k].Runner(data) }); p || r == nil {
+				c.Violation(fmt.Sprintf("runner%d:needle:%s:n=%d:v=%d:panic", k+1, what, cd.n, cd.v), m, "needle", cd.n)
+				continue
+			}
+			c.Eval(ev.HashStr(fmt.Sprintf("needle|%d|%d|%d", k, cd.n, cd.v)), true)
+			c.Count("needle_inputs_with_P_next_to_0.01", 1)
+			if r.Pass != (r.P >= 0.01) {
+				c.Violation(fmt.Sprintf("runner%d:needle:%s:n=%d:v=%d:pass", k+1, what, cd.n, cd.v), fmt.Sprintf("Pass=%v but P=%.17g (input: n=%d, %s=%d; 0.01-P = %.3g)", r.Pass, r.P, cd.n, what, cd.v, 0.01-r.P), "needle", []int{k, cd.n, cd.v})
+			}
+		}
+	}
+	cusumBits := func(cd cand) []uint8 {
+		b := make([]uint8, cd.n)
+		for i := range b {
+			if i < cd.v || (i-cd.v)%2 == 1 {
+				b[i] = 1
+			}
+		}
+		return b
+	}
+	monoBits := func(cd cand) []uint8 {
+		b := make([]uint8, cd.n)
+		ones := (cd.v + cd.n) / 2
+		// spread the ones evenly so that nothing else about the input is extreme
+		acc := 0
+		for i := range b {
+			acc += ones
+			if acc >= cd.n {
+				acc -= cd.n
+				b[i] = 1
+			}
+		}
+		return b
+	}
+	run(10, "max_excursion", cuBelow, cusumBits)
+	run(10, "max_excursion", cuAbove, cusumBits)
+	run(0, "ones_excess", moBelow, monoBits)
+	run(0, "ones_excess", moAbove, monoBits)
+	gap := func(l []cand) float64 {
+		if len(l) == 0 {
+			return -1
+		}
+		return math.Abs(l[0].p - 0.01)
+	}
+	c.Note("needle_search_closest_gap_to_0.01", map[string]interface{}{"cusum_below": gap(cuBelow), "cusum_at_or_above": gap(cuAbove), "monobit_below": gap(moBelow), "monobit_at_or_above": gap(moAbove), "lengths_scanned": nn})
 }
 
 // generalPassSweep: many short generic inputs through all registry runners; Pass must equal
